@@ -424,6 +424,110 @@ pub proof fn lemma_sum_rep(s: Seq<NodeRef>, elt: NodeRef, c: nat)
 }
 
 
+// ---- JSON array / object size encoding (parser/src/json/compiler.rs): item (sep item)* with the count set of `repeat` ----
+pub struct VErr {}
+pub type Result<T> = core::result::Result<T, VErr>;
+//@@ struct parser/src/json/compiler.rs Compiler fields=builder
+
+impl Compiler {
+    /// ASSUMED: the separator (",") contributes no item
+    #[verifier::external_body]
+    fn item_separator(&mut self) -> (r: Result<NodeRef>)
+        ensures final(self).builder.same_caches(&old(self).builder), r is Ok ==> cnt(r->Ok_0) == single(0),
+    { unimplemented!() }
+//@@ sigcheck parser/src/json/compiler.rs Compiler::item_separator :: fn item_separator(&mut self) -> Result<NodeRef>
+
+//@@ fn parser/src/json/compiler.rs Compiler::bounded_sequence
+//@ ret res
+//@ rewrite R10 :: let max_elts = max_elts.map(|v| v.saturating_sub(1)); ==> let max_elts = match max_elts { Some(v) => Some(v.saturating_sub(1)), None => None };
+//@ body_start
+    let ghost min0 = min_elts;
+    let ghost max0 = max_elts;
+//@ spec
+    requires old(self).builder.inv(), is_single(item, 1),
+        min_elts >= 1, max_elts is Some ==> (max_elts->0 >= 1 && min_elts <= max_elts->0),
+    ensures final(self).builder.inv(),
+        // minItems / maxItems (>= 1): exactly the sizes in range
+        res is Ok ==> cnt(res->Ok_0) == (match max_elts { Some(mx) => mults(1, min_elts as nat, mx as nat), None => mults_from(1, min_elts as nat) }),
+//@ before let item_comma_rep = self.builder.repeat(item_comma, min_elts, max_elts);
+    proof {
+        lemma_sum_two(item, comma);
+        lemma_sum_single(1, 0);
+        assert(is_single(item_comma, 1));
+    }
+//@ before Ok(self.builder.join(&[item_comma_rep, item]))
+    proof {
+        lemma_sum_two(item_comma_rep, item);
+        match max0 {
+            Some(mx) => { lemma_shift_one((min0 - 1) as nat, (mx - 1) as nat); }
+            None => { lemma_shift_one_from((min0 - 1) as nat); }
+        }
+    }
+//@ end
+
+//@@ fn parser/src/json/compiler.rs Compiler::sequence
+//@ ret res
+//@ spec
+    requires old(self).builder.inv(), is_single(item, 1),
+    ensures res is Ok ==> cnt(res->Ok_0) == mults_from(1, 1),
+//@ before let item_comma_star = self.builder.zero_or_more(item_comma);
+    proof {
+        lemma_sum_two(item, comma);
+        lemma_sum_single(1, 0);
+        assert(is_single(item_comma, 1));
+    }
+//@ before Ok(self.builder.join(&[item_comma_star, item]))
+    proof {
+        lemma_sum_two(item_comma_star, item);
+        lemma_shift_one_from(0);
+    }
+//@ end
+}
+
+/// {j : lo <= j <= hi} + {1} = {j : lo+1 <= j <= hi+1}
+pub proof fn lemma_shift_one(lo: nat, hi: nat)
+    ensures sumset(mults(1, lo, hi), single(1)) =~= mults(1, lo + 1, hi + 1),
+{
+    let lhs = sumset(mults(1, lo, hi), single(1));
+    let rhs = mults(1, lo + 1, hi + 1);
+    assert forall|x: nat| #[trigger] lhs.contains(x) == rhs.contains(x) by {
+        if lhs.contains(x) {
+            let (u, v) = choose|u: nat, v: nat| #[trigger] mults(1, lo, hi).contains(u) && #[trigger] single(1).contains(v) && x == u + v;
+            let j = choose|j: nat| lo <= j <= hi && u == #[trigger] (j * 1);
+            assert(x == (j + 1) * 1);
+            assert(lo + 1 <= j + 1 <= hi + 1);
+        }
+        if rhs.contains(x) {
+            let j = choose|j: nat| lo + 1 <= j <= hi + 1 && x == #[trigger] (j * 1);
+            let i: nat = (j - 1) as nat;
+            assert(mults(1, lo, hi).contains(i * 1));
+            assert(single(1).contains(1));
+            assert(x == i * 1 + 1);
+        }
+    }
+}
+pub proof fn lemma_shift_one_from(lo: nat)
+    ensures sumset(mults_from(1, lo), single(1)) =~= mults_from(1, lo + 1),
+{
+    let lhs = sumset(mults_from(1, lo), single(1));
+    let rhs = mults_from(1, lo + 1);
+    assert forall|x: nat| #[trigger] lhs.contains(x) == rhs.contains(x) by {
+        if lhs.contains(x) {
+            let (u, v) = choose|u: nat, v: nat| #[trigger] mults_from(1, lo).contains(u) && #[trigger] single(1).contains(v) && x == u + v;
+            let j = choose|j: nat| lo <= j && u == #[trigger] (j * 1);
+            assert(x == (j + 1) * 1);
+            assert(lo + 1 <= j + 1);
+        }
+        if rhs.contains(x) {
+            let j = choose|j: nat| lo + 1 <= j && x == #[trigger] (j * 1);
+            let i: nat = (j - 1) as nat;
+            assert(mults_from(1, lo).contains(i * 1));
+            assert(single(1).contains(1));
+            assert(x == i * 1 + 1);
+        }
+    }
+}
+
 // vacuity guard (must be REJECTED): if at_most's contract were contradictory this would verify
 pub fn must_fail_at_most_plus_one(b: &mut GrammarBuilder, elt: NodeRef, n: usize) -> (r: NodeRef)
     requires old(b).inv(), is_single(elt, 1), n < 1000,
